@@ -150,6 +150,12 @@ func runC01(c c01Case) (r pbt.Result) {
 		w.Flush(sim.Filter{Coarse: true})
 		if !w.Done(name) || len(w.InCall(name+".")) > 0 {
 			// only possible when a closer is still waiting for its grant or the programs stalled: end it
+			if c.Closer[k] == "" && !w.Closed() {
+				// the workload is deadlock-free by construction and nobody ended it early: with the transport
+				// flowing, every receiver must have seen end-of-stream by now
+				fail("an undisturbed RPC did not run to completion (a receiver never saw end-of-stream)")
+				return
+			}
 			if st := w.Stream(k); st != nil {
 				w.GoCall(fmt.Sprintf("x%d", k), "forceclose", k, st.Close)
 			}
